@@ -650,7 +650,7 @@ func TestC08(t *testing.T) {
 		case 0, 1, 2, 3:
 			in = c08Input{Kind: "dsl", Text: strip(gen.Mutate(rt, rapid.SampledFrom(allDSL).Draw(rt, "doc"), allDSL, 4))}
 		case 4:
-			m := gen.DSLModel(rt, gen.DSLOpts{Rich: true, Conditions: true, MaxTypes: 3, MaxRels: 3})
+			m := gen.DSLModel(rt, gen.DSLOpts{Rich: true, Conditions: true, MaxTypes: 3, MaxRels: 3, Scale: true})
 			in = c08Input{Kind: "dsl", Text: strip(gen.Mutate(rt, gen.Render(m, &rapidChooser{t: rt}, gen.RenderOpts{}).Text, allDSL, 3))}
 		case 5, 6:
 			in = c08Input{Kind: "json", Text: gen.Mutate(rt, rapid.SampledFrom(corp.JSON).Draw(rt, "json"), corp.JSON, 3)}
